@@ -24,7 +24,7 @@ func (t *SerializableTime) UnmarshalJSON(data []byte) error {
 		return nil
 	}
 
-	if !strings.HasPrefix(stringifiedData, "\"") || !strings.HasSuffix(stringifiedData, "\"") {
+	if len(stringifiedData) < 2 || !strings.HasPrefix(stringifiedData, "\"") || !strings.HasSuffix(stringifiedData, "\"") {
 		return ErrTimeNotJSONString
 	}
 
